@@ -18,7 +18,7 @@ CASE_TIMEOUT = 600
 LO, HI = 0.2, 2e4
 
 Q_DT = (0.005, 0.01, 1.0)
-Q_RATIO = (0.2, 0.5, 1, 2, 5.9, 6, 10, 20, 100, 1000, 2000)
+Q_RATIO = (0.2, 0.5, 1, 2, 5.9, 6, 10, 20, 100, 1000, 2000, 5000, 2e4)
 Q_XI = (0.0, 0.01, 0.05, 0.2, 0.5, 0.9, 0.99)
 T_DT = (0.005, 0.01, 0.02, 0.25, 1.0)
 T_RATIO = (0.2, 0.21, 0.5, 1, 2, 3, 5.9, 6, 10, 20, 50, 100, 1000, 2000, 5000, 1e4, 1.5e4, 2e4)
